@@ -40,6 +40,7 @@ type c06Pkt struct {
 type c06In struct {
 	Routes  [][]c06Matcher `json:"routes"`
 	Pending []string       `json:"pending,omitempty"`
+	Ended   []string       `json:"ended,omitempty"` // ids of SendIQ requests whose context has ended (Err() != nil) while their entry is still registered (the clean-up goroutine has not run: Done() never fires)
 	Pkt     c06Pkt         `json:"pkt"`
 }
 
@@ -55,7 +56,7 @@ func (c06) Workers() int  { return 8 }
 // down (a fatal error no recover can catch) is still named by the check.
 func (c06) Journal() bool { return true }
 func (c06) Rule() string {
-	return "random route tables (0-6 routes x 0-3 matchers among Packet/StanzaType/IQNamespaces, 1-3 arguments each, catch-all routes at random positions, duplicated and overlapping routes, arguments in mixed case, ASCII only because the model lower-cases ASCII) x one random packet (message/presence with assorted types incl. empty, *IQ of type get/set/result/error/other with payload nil / built by the library builders / zero-valued / custom namespace / parsed from XML (registered payload types, and types unknown to the registry such as ping / vCard / a mixed-case application namespace, which land in the generic Any node), with or without a generic Any node, and 9 kinds of non-stanza packets; no SMAnswer), 0-2 pending IQ-result ids (clashing with the ids of requests as well as of responses); namespace arguments aim at the payload namespace verbatim or in another letter case; corpus: an unmatched get whose generic payload is nested 400000 levels (generated from the depth); the recording Sender serialises what it is given, as Client.Send / Component.Send do; distinct = distinct (matcher kinds and per-route verdict, packet class, pending hit); non-trivial = at least 2 routes and either a route other than the first is selected or nothing matches an IQ get/set"
+	return "random route tables (0-6 routes x 0-3 matchers among Packet/StanzaType/IQNamespaces, 1-3 arguments each, catch-all routes at random positions, duplicated and overlapping routes, arguments in mixed case, ASCII only because the model lower-cases ASCII) x one random packet (message/presence with assorted types incl. empty, *IQ of type get/set/result/error/other with payload nil / built by the library builders / zero-valued / custom namespace / parsed from XML (registered payload types, and types unknown to the registry such as ping / vCard / a mixed-case application namespace, which land in the generic Any node), with or without a generic Any node, and 9 kinds of non-stanza packets; no SMAnswer), 0-2 pending IQ-result ids (clashing with the ids of requests as well as of responses), and in one case in five 1-2 ids of requests that have ENDED (context cancelled, entry still in IQResultRoutes because the clean-up goroutine is held back: a context whose Err() is non-nil and whose Done() never fires) - a response carrying such an id is a received packet like any other: first matching route exactly once, delivered to nobody, stale entry gone; a live pending request still takes its response and no handler runs; namespace arguments aim at the payload namespace verbatim or in another letter case; corpus: an unmatched get whose generic payload is nested 400000 levels (generated from the depth); the recording Sender serialises what it is given, as Client.Send / Component.Send do; distinct = distinct (matcher kinds and per-route verdict, packet class, pending hit); non-trivial = at least 2 routes and either a route other than the first is selected or nothing matches an IQ get/set"
 }
 
 // ---- packets -------------------------------------------------------------------------
@@ -207,6 +208,14 @@ func c06SentSx(p stanza.Packet) Sx {
 	return L(Z(99), SBytes(p.Name()))
 }
 
+// c06EndedCtx: a context that has ended (Err() != nil) but whose Done() never fires, so that the
+// goroutine that would remove the request's entry never runs: the window between the end of a
+// request and its clean-up, held open.
+type c06EndedCtx struct{ context.Context }
+
+func (c06EndedCtx) Err() error            { return context.Canceled }
+func (c06EndedCtx) Done() <-chan struct{} { return nil }
+
 // ---- the recording Sender ------------------------------------------------------------
 
 type c06Sender struct {
@@ -282,8 +291,24 @@ func (c06) Run(inp interface{}) Sx {
 	done := make(chan struct{})
 	var wg sync.WaitGroup
 	var delivered []Sx
+	type reg struct {
+		id    string
+		ended bool
+	}
+	var regs []reg
 	for _, id := range in.Pending {
-		ch := router.NewIQResultRoute(ctx, id)
+		regs = append(regs, reg{id, false})
+	}
+	for _, id := range in.Ended {
+		regs = append(regs, reg{id, true})
+	}
+	for _, rg := range regs {
+		var ch chan stanza.IQ
+		if rg.ended {
+			ch = router.NewIQResultRoute(c06EndedCtx{context.Background()}, rg.id)
+		} else {
+			ch = router.NewIQResultRoute(ctx, rg.id)
+		}
 		wg.Add(1)
 		go func() {
 			defer wg.Done()
@@ -319,12 +344,18 @@ func (c06) Run(inp interface{}) Sx {
 			left = append(left, SBytes(id))
 		}
 	}
+	var endedLeft []Sx
+	for _, id := range in.Ended {
+		if _, ok := router.IQResultRoutes[id]; ok {
+			endedLeft = append(endedLeft, SBytes(id))
+		}
+	}
 	router.IQResultRouteLock.RUnlock()
 	sender.mu.Lock()
 	defer sender.mu.Unlock()
 	mu.Lock()
 	defer mu.Unlock()
-	return L(LS(log), LS(sender.sent), LS(sender.raws), Zi(sender.sendIQ), LS(delivered), LS(left))
+	return L(LS(log), LS(sender.sent), LS(sender.raws), Zi(sender.sendIQ), LS(delivered), LS(left), LS(endedLeft))
 }
 
 func c06Strs(xs []string) Sx {
@@ -362,7 +393,7 @@ func (c06) Input(inp interface{}) Sx {
 	default:
 		p = L(Z(3), Zi(in.Pkt.Other%len(c06Others)))
 	}
-	return L(LS(routes), c06Strs(in.Pending), p)
+	return L(LS(routes), c06Strs(in.Pending), p, c06Strs(in.Ended))
 }
 
 // ---- direct oracle: the documented semantics, re-implemented here ---------------------
@@ -414,6 +445,7 @@ func c06Accepts(ms []c06Matcher, f c06Facts) bool {
 }
 
 type c06Want struct {
+	endedHit   bool // a response whose id is that of an ended, not yet cleaned-up request (and of no live one)
 	pendingHit bool
 	first      int // first acceptable route, -1 none
 	reply      bool
@@ -441,6 +473,13 @@ func c06Expect(in c06In, f c06Facts) c06Want {
 			}
 		}
 	}
+	if !w.pendingHit && f.kind == 2 && (f.typ == "result" || f.typ == "error") {
+		for _, id := range in.Ended {
+			if id == f.id {
+				w.endedHit = true
+			}
+		}
+	}
 	w.reply = !w.pendingHit && w.first < 0 && f.kind == 2 && (f.typ == "get" || f.typ == "set")
 	return w
 }
@@ -449,10 +488,27 @@ func (c06) Oracle(inp interface{}, obs Sx) (string, string) {
 	in := inp.(c06In)
 	f := c06FactsOf(c06Build(in.Pkt))
 	w := c06Expect(in, f)
-	if obs.K != "l" || len(obs.L) != 6 {
+	if obs.K != "l" || len(obs.L) != 7 {
 		return "malformed observation", "shape"
 	}
 	log, sent, raws, sendIQ, deliv, left := obs.L[0].L, obs.L[1].L, obs.L[2].L, obs.L[3].Z, obs.L[4].L, obs.L[5].L
+	endedLeft := obs.L[6].L
+	// the entries of ended requests: a response with such an id takes the stale entry away, nothing else touches them
+	wantEndedLeft := 0
+	for _, id := range in.Ended {
+		if !(w.endedHit && id == f.id) {
+			wantEndedLeft++
+		}
+	}
+	if len(endedLeft) != wantEndedLeft {
+		if w.endedHit {
+			return fmt.Sprintf("response with the id %q of a request that has ended: its stale entry is still registered", f.id), "ended-not-removed"
+		}
+		return "packet that answers no request removed the entry of an ended request", "ended-spurious"
+	}
+	if w.endedHit && len(deliv) != 0 {
+		return fmt.Sprintf("response with the id %q of a request whose context has ended was delivered to a request", f.id), "ended-delivered"
+	}
 	if len(raws) != 0 || sendIQ != 0 {
 		return fmt.Sprintf("router called SendRaw %d times, SendIQ %d times", len(raws), sendIQ), "raw-or-sendiq"
 	}
@@ -565,7 +621,7 @@ func (c06) Key(inp interface{}) (string, bool) {
 			pl += "(ns empty)"
 		}
 	}
-	fmt.Fprintf(&b, "|%s/%s%s|%v", cls, typ, pl, w.pendingHit)
+	fmt.Fprintf(&b, "|%s/%s%s|%v%v", cls, typ, pl, w.pendingHit, w.endedHit)
 	hist(fmt.Sprintf("routes:%d", len(in.Routes)))
 	if f.kind == 3 {
 		hist("pkt:other")
@@ -575,6 +631,10 @@ func (c06) Key(inp interface{}) (string, bool) {
 	switch {
 	case w.pendingHit:
 		hist("outcome:pending-request")
+	case w.endedHit && w.first >= 0:
+		hist("outcome:ended-request-response-routed")
+	case w.endedHit:
+		hist("outcome:ended-request-response-unmatched")
 	case w.first == 0:
 		hist("outcome:route-0")
 	case w.first > 0:
@@ -593,6 +653,9 @@ func (c06) Key(inp interface{}) (string, bool) {
 		}
 	}
 	nt := len(in.Routes) >= 2 && !w.pendingHit && (w.first > 0 || w.reply)
+	if len(in.Ended) > 0 {
+		hist("ended-requests:present")
+	}
 	return b.String(), nt
 }
 
@@ -739,6 +802,14 @@ func (c06) Gen(r *rand.Rand, tier string) []interface{} {
 		c06In{Routes: [][]c06Matcher{{pm("packet", "iq")}}, Pending: []string{"1"}, Pkt: c06Pkt{Kind: "iq", Type: "error", Id: "1", From: "srv.example"}}, // a response with a pending id goes to the request
 		c06In{Routes: [][]c06Matcher{{pm("packet", "iq")}}, Pending: []string{"1"}, Pkt: c06Pkt{Kind: "message", Id: "1"}},
 		c06In{Routes: [][]c06Matcher{{pm("packet", "message")}}, Pending: []string{"2", "1"}, Pkt: c06Pkt{Kind: "iq", Type: "result", Id: "1"}},
+		// a response for a request that has ended (entry not yet cleaned up) is a packet like any other: first matching route, once
+		c06In{Routes: [][]c06Matcher{{pm("packet", "iq")}}, Ended: []string{"1"}, Pkt: c06Pkt{Kind: "iq", Type: "result", Id: "1", From: "srv.example"}},
+		c06In{Routes: [][]c06Matcher{{pm("packet", "message")}, {pm("packet", "iq"), pm("type", "result", "error"), pm("ns", "jabber:iq:version")}, {pm("packet", "iq")}, {}}, Ended: []string{"abc"}, Pending: []string{"1"}, Pkt: c06Pkt{Kind: "iq", Type: "result", Id: "abc", From: "srv.example", Payload: "version"}},
+		c06In{Routes: [][]c06Matcher{{pm("type", "get")}, {}}, Ended: []string{"1", "abc"}, Pkt: c06Pkt{Kind: "iq", Type: "error", Id: "abc", From: "a@b/c"}},
+		c06In{Routes: [][]c06Matcher{{pm("packet", "message")}}, Ended: []string{"1"}, Pkt: c06Pkt{Kind: "iq", Type: "result", Id: "1"}},                      // no route accepts: silently dropped, entry gone
+		c06In{Routes: [][]c06Matcher{{pm("packet", "iq")}}, Ended: []string{"1"}, Pkt: get},                                                                   // a request with that id: routed, the stale entry stays
+		c06In{Routes: [][]c06Matcher{{pm("packet", "iq")}}, Ended: []string{"abc"}, Pending: []string{"1"}, Pkt: c06Pkt{Kind: "iq", Type: "result", Id: "1"}}, // the live request still takes its response
+		c06In{Routes: [][]c06Matcher{{}}, Ended: []string{"1"}, Pkt: c06Pkt{Kind: "message", Id: "1"}},
 	}
 	for i := 0; i < n; i++ {
 		p := c06GenPkt(r)
@@ -767,7 +838,20 @@ func (c06) Gen(r *rand.Rand, tier string) []interface{} {
 			r.Shuffle(len(cand), func(a, b int) { cand[a], cand[b] = cand[b], cand[a] })
 			pend = cand[:1+r.Intn(2)]
 		}
-		out = append(out, c06In{Routes: routes, Pending: pend, Pkt: p})
+		var ended []string
+		if r.Intn(5) == 0 {
+			// requests that have ended, under ids no live request uses (the table holds one entry per id)
+			for _, id := range []string{"1", "abc", "id-7", "zz", ""} {
+				live := false
+				for _, q := range pend {
+					live = live || q == id
+				}
+				if !live && len(ended) < 2 && r.Intn(2) == 0 {
+					ended = append(ended, id)
+				}
+			}
+		}
+		out = append(out, c06In{Routes: routes, Pending: pend, Ended: ended, Pkt: p})
 	}
 	return out
 }
